@@ -85,4 +85,34 @@ CHECKS = {
         technique='the engine\'s Scala statistical functions run as compiled source slices against exact-integer / fixed-point / mpmath references over exhaustive small grids and Hypothesis-generated tables',
         text='10^4 dense 2x2 tables, generated tables up to 3000 per cell, HWE triples exhaustive to 25^3 plus generated to 5000: p-values, statistics, odds ratios and CI limits against their definitions with stated tolerances; p in [0,1]; NaN exactly where degenerate.',
         note='pchisqtail is substituted (commons-math3 for jdistlib); Scala 3 compile of 2.12 source; references in checks/c37.py. One known finding (uniroot absolute tolerance) is listed.'),
+    'C15': dict(
+        level='exploration',
+        technique='exhaustive subset/shape grids + Hypothesis spec generation; round-trip oracle through json for every batch format version',
+        text='All subsets of a 12-region universe (two id ranges), all singletons/pairs over ids 1..63, a spec-shape grid x versions 1..7 and ~18k generated specs/region selections: the compact db form gives back the same secrets, service account, io flags and machine spec; bitsets decode to the same region set and fit a signed BIGINT.',
+        note='Oracle is the field projection of the spec written in checks/c15.py; specs are generated in the shape front_end._create_jobs passes to db_spec.'),
+    'C19': dict(
+        level='exploration',
+        technique='exhaustive small grid + Hypothesis size-controlled spec lists against flatten / order / limit predicates on the real Batch._create_bunches',
+        text='~32k inputs per quick run (0-40 job groups, 0-200 jobs, sizes at limit-1, count and byte limits down to 1): concatenated bunches equal groups-then-jobs byte-for-byte, no empty bunch, every bunch within both limits.',
+        note='Caller preconditions (every spec below the byte limit, positive limits) hold by construction; orjson is a json-backed shim.'),
+    'C22': dict(
+        level='exploration',
+        technique='Hypothesis-generated source trees and transfer sets run through the real Copier on temp dirs with part/buffer sizes forced to 1..64 bytes; reference model of the documented destination rules',
+        text='~4-5k copies per quick run incl. multi-part files with short last parts, directory merges, all treat_dest_as modes and error classes; the model reproduces all 324 rows of the repository\'s own copy_test_specs table, which are also run through the real copier.',
+        note='Trusts the reference model (validated 324/324 against the repo spec table) and host FS read-back. Racy/conflicting transfers get weak checks only. Two defects found were fixed.'),
+    'C23': dict(
+        level='exploration',
+        technique='Hypothesis + exhaustive grid of ranged reads over the real Local/Google/S3/Azure FS classes with provider fakes honouring documented range semantics',
+        text='~22k reads per quick run (object sizes 0-300 and 70000, every start/length incl. last byte, empty ranges, beyond-end; open_from, read_from, read_range with both end_inclusive values).',
+        note='Fakes encode RFC 7233 / boto / Azure SDK range semantics (assumption); no real cloud is contacted. Two Azure findings are listed as known.'),
+    'C28': dict(
+        level='exploration',
+        technique='exhaustive enumeration of all strings <= 5 over a 12-symbol adversarial alphabet + Hypothesis mutation of accepted names (+ atheris in the thorough tier); two hand-written recognisers compared in both directions',
+        text='283k strings per quick run through is_valid_username, validate_credentials_secret_name_input and the insert_new_user/check_valid_new_user path; accept/reject must equal the statement-derived recognisers.',
+        note='Trusts the recognisers in checks/c28.py and the fake transaction on the insert_new_user path. Found and fixed: trailing newline accepted by the secret-name regex.'),
+    'C29': dict(
+        level='exploration',
+        technique='exhaustive component grid (scheme x slashes x userinfo x host x port x tail, two deploy configs) + Hypothesis grammar-aware mutation (+ atheris in thorough); one-directional differential against an independent WHATWG-style URL resolver',
+        text='1.15M candidate next URLs per quick run: whenever validate_next_page_url accepts, the independently resolved scheme must be http(s)/relative and the host one of the four service hosts.',
+        note='Trusts the resolver in checks/c29.py (IDNA approximated by NFKC + lower-casing) and a fixed deploy config. Found and fixed: non-http schemes were accepted.'),
 }
